@@ -192,7 +192,7 @@ def fallback_witnesses():
     return out
 
 
-def walk_family(rng, n):
+def walk_family(rng, n, vars=False):
     """C03's family (every `inherits` map on en/fr/de/es x presence pattern of a value key `a` and a group leaf `g.x`) with
     references to both: `b: "$t(a)!"`, `c: "<$t(g.x)>"`, `d: "$t(b) $t(w, {"v": "$t(a)"})"` present in the default locale and in
     some of the others (so that the referencing keys are themselves reached through the fallback)"""
@@ -202,9 +202,22 @@ def walk_family(rng, n):
         q["files"] = {}
         for (ns, l), tree in p["files"].items():
             pairs = [list(kv) for kv in tree["o"]]
+            if vars:
+                # every locale's own text of `a` / `g.x` takes a variable of its own (used by C08: the arguments a referencing key
+                # requires are those of the text it actually resolves to)
+                def own(j):
+                    if isinstance(j, str):
+                        return j + " {{ p_" + l + " }}"
+                    if isinstance(j, dict) and "o" in j:
+                        return {"o": [[k, own(v)] for k, v in j["o"]]}
+                    return j
+                pairs = [[k, own(v)] for k, v in pairs]
+            # each referencing key on its own: a locale may have `d` without `b` (the chain d -> b -> a then crosses locales)
             if l == "en" or rng.chance(2, 3):
                 pairs.append(["b", "$t(a)!"])
+            if l == "en" or rng.chance(2, 3):
                 pairs.append(["c", "<$t(g.x)>"])
+            if l == "en" or rng.chance(2, 3):
                 pairs.append(["d", "$t(b) $t(w, {\"v\": \"$t(a)\"})"])
             if l == "en" or rng.chance(1, 2):
                 pairs.append(["w", "W-" + l + " {{ v }}"])
